@@ -15,6 +15,8 @@ FIXED_EPOCH = 1_700_000_000
 # debug logging requested on the connection/client under test (what the library does must not depend on it); a check sets this
 # around the configurations it repeats "with debug on" - worker processes are forked afterwards and inherit it
 DEFAULT_DEBUG = [False]
+# every transport of the world hands received data to the library in one recycled bytearray (set by a check around such configurations)
+RECYCLE_RX = [False]
 
 
 class _TimeShim:
@@ -79,6 +81,8 @@ class World:
         self.write_fault: Exception | None = None  # sync flavour: transport.write raises
         self.ret_hook: Callable[[str], None] | None = None
         self.transports: list[Any] = []
+        self.recycle_rx = RECYCLE_RX[0]
+        self.rx_pinned = 0
         self._patch_transport()
 
     # --- transport whose write can raise synchronously (uvloop-style) ----------------------
@@ -95,7 +99,33 @@ class World:
                     raise err
                 super().write(data)
 
+        class RecyclingProtocol:
+            """Stands between the transport and the library's protocol: hands every received chunk over in one reused bytearray
+            (what a transport built on recv_into() does) and overwrites that storage as soon as data_received() has returned."""
+
+            def __init__(self, inner: Any) -> None:
+                self._inner = inner
+                self._rx = bytearray()
+
+            def data_received(self, data: Any) -> None:
+                self._rx[:] = data
+                try:
+                    self._inner.data_received(self._rx)
+                finally:
+                    try:
+                        self._rx[:] = b"\xee" * len(data)
+                    except BufferError:
+                        # the library still holds an export of the caller's buffer: the transport cannot reuse it
+                        world.note("rx_buffer_pinned")
+                        world.rx_pinned += 1
+                        self._rx = bytearray()
+
+            def __getattr__(self, name: str) -> Any:
+                return getattr(self._inner, name)
+
         def make(sock: Any, protocol: Any, waiter: Any = None, *, extra: Any = None, server: Any = None) -> Any:
+            if world.recycle_rx:
+                protocol = RecyclingProtocol(protocol)
             t = T(self.loop, sock, protocol, waiter, extra, server)
             world.transports.append(t)
             return t
